@@ -1,0 +1,50 @@
+//go:build verif
+
+package simhook
+
+import (
+	"sort"
+	"sync"
+
+	"github.com/go-git/go-git/v6/plumbing"
+)
+
+// Handlers are nil unless a simulation installs them.
+var (
+	LockHandler  func(mu sync.Locker)
+	RLockHandler func(mu *sync.RWMutex)
+	YieldHandler func(site string)
+	// Deterministic makes SortHashes sort (map-iteration order would
+	// otherwise leak into the order of disk operations and break replay).
+	Deterministic bool
+)
+
+// BeforeLock is called immediately before mu.Lock() at lock sites that can be
+// held across I/O.
+func BeforeLock(mu sync.Locker) {
+	if h := LockHandler; h != nil {
+		h(mu)
+	}
+}
+
+// BeforeRLock is called immediately before mu.RLock().
+func BeforeRLock(mu *sync.RWMutex) {
+	if h := RLockHandler; h != nil {
+		h(mu)
+	}
+}
+
+// Yield marks a pure scheduling point.
+func Yield(site string) {
+	if h := YieldHandler; h != nil {
+		h(site)
+	}
+}
+
+// SortHashes is called on hash lists whose order comes from map iteration
+// and leaks into I/O order.
+func SortHashes(hs []plumbing.Hash) {
+	if Deterministic {
+		sort.Slice(hs, func(i, j int) bool { return hs[i].Compare(hs[j].Bytes()) < 0 })
+	}
+}
